@@ -519,6 +519,8 @@ def run_check(prop, tier, replay=None, label=None):
             drift += check_resolve.real_phase(run, "C09", tier, workdir, binary, rscs,
                                               ["C09_NoPanic", "C09_RequiredFails", "C09_OptionalHarmless"], [], tag="res")
             drift += runner_phase(run, tier, workdir, binary, rng)
+            import check_data
+            check_data.missing_phase(run, workdir, binary)
             ascs = [al.scenario(rng, "C09-app%d" % i, "C09") for i in range(n)]
             drift += check_app.real_phase(run, "C09", tier, workdir, binary, ascs,
                                           ["C09_NoRunnerAfterFailure", "C13_ErrorReported", "C13_StopAtError"],
